@@ -15,7 +15,9 @@ from gen import F, enc_label, dec_label, LabelTable, coq_obs
 KINDS = ['reduce', 'reduce', 'mq', 'mq', 'cqm', 'hoc']
 STRENGTHS = ['1/2', '1', '2', '3']
 # labels chosen to collide with the names the reduction invents ('u*v', 'auxu,v')
-TRICKY = ['0*1', '1*0', 'a*b', 'b*a', 'aux0,1', 'aux1,0', 'auxa,b', '_0*1', '0*1*2', 'auxa,b*c']
+TRICKY = ['0*1', '1*0', 'a*b', 'b*a', 'aux0,1', 'aux1,0', 'auxa,b', '_0*1', '0*1*2', 'auxa,b*c',
+          # an auxiliary name 'aux{u},{v}' with v a product equals the product name of ('aux{u},x', 'y') when v = 'x*y'
+          'auxb,a', 'c,a', 'auxb,c', 'a,b', 'auxc,a', 'b,c', 'auxa,c', 'b,a', 'auxc', 'auxb', 'auxa']
 POOL = [0, 1, 2, 3, 'a', 'b', 'c', ('t', 1), ('t', 2), 'x0', 5, 7]
 
 
@@ -24,9 +26,8 @@ def rand_poly(rng, tier, nmax=6, dmax=5, tmax=7, namesakes=3):
     pool = list(POOL)
     rng.shuffle(pool)
     labels = pool[:n]
-    if rng.random() < 0.25:
-        labels[rng.randrange(n)] = rng.choice(TRICKY)
-        if rng.random() < 0.5 and n > 2:
+    if rng.random() < 0.3:
+        for _k in range(rng.choice([1, 1, 2, 2, 3])):
             x = rng.choice(TRICKY)
             if x not in labels:
                 labels[rng.randrange(n)] = x
@@ -98,7 +99,16 @@ def gen_case(rng, tier):
     big = tier == 'thorough'
     if kind == 'hoc':
         vartype, terms = rand_poly(rng, tier, nmax=4, dmax=4, tmax=4, namesakes=1)
-        child = rng.choice(['f64', 'f64', 'f32', 'int', 'int'])
+        x = rng.random()
+        if x < 0.06:         # constant only: the quadratic model has no variable, the child returns no row
+            terms = [[[], str(rng.dyadic(8, 2))]]
+        elif x < 0.10:       # every variable cancels (SPIN) / only low-order terms
+            v = enc_label(rng.choice(POOL))
+            terms = [[[v, v], str(rng.dyadic(8, 2))]] + ([[[], "3/2"]] if rng.random() < 0.5 else [])
+        elif x < 0.14:
+            terms = [t for t in terms if len(set(map(repr, t[0]))) <= 2] or [[[], "1"]]
+        # 'empty' / 'head': a child that returns no row / only its first rows
+        child = rng.choice(['f64', 'f64', 'f64', 'f32', 'int', 'int', 'empty', 'head'])
         if child == 'f32':
             # a constant that float64 holds exactly and float32 does not
             terms = [t for t in terms if t[0]] + [[[], str(2 ** 24 + 1 + rng.randint(0, 6) * 2)]]
@@ -122,14 +132,17 @@ class CastChild(dimod.Sampler):
     parameters = None
     properties = None
 
-    def __init__(self, dtype):
+    def __init__(self, dtype, head=None):
         self.dtype = dtype
+        self.head = head
         self.parameters = {}
         self.properties = {}
 
     def sample(self, bqm, **kwargs):
         ss = dimod.ExactSolver().sample(bqm)
         rec = ss.record
+        if self.head is not None:
+            rec = rec[:self.head]
         return dimod.SampleSet.from_samples((rec.sample, list(ss.variables)), energy=rec.energy.astype(self.dtype),
                                             vartype=ss.vartype, num_occurrences=rec.num_occurrences)
 
@@ -258,8 +271,14 @@ def run_case(c):
     keep = bool(c["keep"])            # default False
     discard = bool(c["discard"])      # default False
     child = c.get("child", "f64")
-    sampler = dimod.HigherOrderComposite(dimod.ExactSolver() if child == 'f64' else
-                                         CastChild(np.float32 if child == 'f32' else np.int64))
+    partial = child in ('empty', 'head')
+    if child == 'f64':
+        inner = dimod.ExactSolver()
+    elif partial:
+        inner = CastChild(np.float64, head=0 if child == 'empty' else 1 + c["rowseed"] % 5)
+    else:
+        inner = CastChild(np.float32 if child == 'f32' else np.int64)
+    sampler = dimod.HigherOrderComposite(inner)
     api = c["api"]
     feats.update(api=api, keep=c["keep"], discard=c["discard"], child=child)
     nvars0 = len(dimod.BinaryPolynomial(raw, vt).variables)
@@ -289,6 +308,8 @@ def run_case(c):
     if ss.vartype is not gen.VT[vt]:
         py_fail = f"sample set vartype {ss.vartype}"
     extra = set(variables) - set(orig)
+    if partial and (len(ss) > (0 if child == 'empty' else 1 + c["rowseed"] % 5)):
+        py_fail = f"{len(ss)} rows returned although the child returned fewer"
     if not keep and extra:
         py_fail = f"penalty variables {extra!r} kept although keep_penalty_variables is false"
     if keep and set(variables) != set(orig) | {p for _, _, p in cons} | {d['auxiliary'] for d in red.values() if 'auxiliary' in d}:
@@ -323,7 +344,7 @@ def run_case(c):
     want_all = 2 ** (nprod + naux)
     want_sat = 2 ** naux
     # (a variable-free quadratic model has no assignment for ExactSolver to enumerate: no rows at all)
-    for key in (itertools.product(values, repeat=len(orig)) if variables or rows else []):
+    for key in (itertools.product(values, repeat=len(orig)) if (variables or rows) and not partial else []):
         got = per_orig.get(key, [0, 0])
         exp = [want_sat if discard else want_all, want_sat]
         if got != exp and py_fail is None:
